@@ -263,6 +263,8 @@ func (E *Engine) loadFacts(st *State, v *Val) []string {
 			if sh.Kind == "slice" || sh.Kind == "iface" {
 				if sh.Kind == "slice" {
 					out = append(out, or(eq(v.F[0].S, "0"), sx("select", st.alloc, v.F[0].S)))
+				} else if E.CS.PtrIfaces[namedKey(v.T)] {
+					out = append(out, or(eq(v.F[1].S, "0"), sx("select", st.alloc, v.F[1].S)))
 				}
 				return
 			}
